@@ -294,7 +294,6 @@ Proof. exact model_satisfies_monitors_clauses. Qed.
 Print Assumptions c10_model_satisfies_monitors_clauses.
 
 Theorem c10_model_satisfies_monitors_clauses_acc : forall cfg evs,
-  match cfg with [_; c] => c = 0%N | _ => True end ->
   monitor (mon_only proved_acc) 0 (minit cfg) [] evs (run_obs step_opt (hinit cfg) evs) = [].
 Proof. exact model_satisfies_monitors_clauses_acc. Qed.
 Print Assumptions c10_model_satisfies_monitors_clauses_acc.
